@@ -1,1 +1,118 @@
-// placeholder
+//! Ground truth from the real serde: generated programs (rendered without typeshare attributes) are
+//! compiled against serde_derive / serde_json exactly as /repo/Cargo.lock pins them, values are
+//! serialised by a generated `main`, and the printed JSON is what serde really does.
+use crate::report::Ctx;
+use serde_json::Value;
+use std::collections::BTreeMap;
+use std::path::PathBuf;
+use std::process::Command;
+
+pub struct OracleProgram {
+    /// Rust items (no `use` lines needed: the module gets a prelude)
+    pub module_src: String,
+    /// (label, Rust expression evaluating to a Serialize value, written relative to the module)
+    pub values: Vec<(String, String)>,
+}
+
+pub struct OracleOut {
+    /// program index -> label -> JSON
+    pub json: Vec<BTreeMap<String, Value>>,
+    pub build_s: f64,
+    pub crates: usize,
+}
+
+fn crate_dir(ctx: &Ctx, name: &str, k: usize) -> PathBuf {
+    ctx.build.join(format!("oracle-{}-{}-{}", name, ctx.tag, k))
+}
+
+fn ensure_crate(ctx: &Ctx, dir: &PathBuf) {
+    std::fs::create_dir_all(dir.join("src")).expect("mkdir oracle");
+    let manifest = "[package]\nname = \"serde_oracle\"\nversion = \"0.1.0\"\nedition = \"2021\"\n\n[workspace]\n\n[dependencies]\nserde = { version = \"1\", features = [\"derive\"] }\nserde_json = \"1\"\n\n[profile.dev]\nopt-level = 0\ndebug = 0\nincremental = false\n";
+    let mp = dir.join("Cargo.toml");
+    if std::fs::read_to_string(&mp).ok().as_deref() != Some(manifest) {
+        std::fs::write(&mp, manifest).expect("write manifest");
+    }
+    let lock = dir.join("Cargo.lock");
+    if !lock.exists() {
+        std::fs::copy(ctx.repo.join("Cargo.lock"), &lock).expect("copy Cargo.lock");
+    }
+}
+
+/// Compile and run; programs are spread over `crates` cargo projects built in parallel.
+/// Err(text) = the oracle itself failed (rustc rejected a generated program): a harness error.
+pub fn run(ctx: &Ctx, name: &str, programs: &[OracleProgram], crates: usize) -> Result<OracleOut, String> {
+    let start = std::time::Instant::now();
+    let crates = crates.max(1).min(programs.len().max(1));
+    let per = (programs.len() + crates - 1) / crates;
+    let results: Vec<Result<Vec<(usize, String, String)>, String>> = std::thread::scope(|s| {
+        let mut hs = vec![];
+        for k in 0..crates {
+            let lo = k * per;
+            let hi = ((k + 1) * per).min(programs.len());
+            if lo >= hi {
+                continue;
+            }
+            let slice = &programs[lo..hi];
+            hs.push(s.spawn(move || -> Result<Vec<(usize, String, String)>, String> {
+                let dir = crate_dir(ctx, name, k);
+                ensure_crate(ctx, &dir);
+                let mut src = String::from("#![allow(dead_code, unused_imports, non_snake_case, non_camel_case_types, unused_variables, non_upper_case_globals)]\n");
+                for (i, p) in slice.iter().enumerate() {
+                    src.push_str(&format!("mod p{} {{\n    use serde::Serialize;\n    use std::collections::HashMap;\n", lo + i));
+                    src.push_str(&p.module_src);
+                    src.push_str("\n}\n");
+                }
+                src.push_str("fn main() {\n    use std::io::Write;\n    let out = std::io::stdout();\n    let mut out = std::io::BufWriter::new(out.lock());\n");
+                for (i, p) in slice.iter().enumerate() {
+                    src.push_str(&format!("    {{\n        use p{}::*;\n", lo + i));
+                    for (label, expr) in &p.values {
+                        src.push_str(&format!(
+                            "        writeln!(out, \"{}\\t{}\\t{{}}\", serde_json::to_string(&{}).unwrap()).unwrap();\n",
+                            lo + i,
+                            label.replace('\\', "\\\\").replace('"', "\\\"").replace('{', "{{").replace('}', "}}"),
+                            expr
+                        ))
+                        ;
+                    }
+                    src.push_str("    }\n");
+                }
+                src.push_str("}\n");
+                std::fs::write(dir.join("src/main.rs"), &src).map_err(|e| e.to_string())?;
+                let b = Command::new("cargo")
+                    .args(["build", "--offline", "--quiet"])
+                    .current_dir(&dir)
+                    .env("CARGO_TARGET_DIR", ctx.build.join(format!("oracle-target-{}", ctx.tag)).join(format!("{name}-{k}")))
+                    .env_remove("RUSTFLAGS")
+                    .output()
+                    .map_err(|e| e.to_string())?;
+                if !b.status.success() {
+                    let err = String::from_utf8_lossy(&b.stderr);
+                    return Err(format!("oracle crate {k} failed to build:\n{}", err.chars().take(3000).collect::<String>()));
+                }
+                let exe = ctx.build.join(format!("oracle-target-{}", ctx.tag)).join(format!("{name}-{k}")).join("debug/serde_oracle");
+                let r = Command::new(&exe).output().map_err(|e| e.to_string())?;
+                if !r.status.success() {
+                    return Err(format!("oracle binary {k} failed: {}", String::from_utf8_lossy(&r.stderr)));
+                }
+                let mut out = vec![];
+                for line in String::from_utf8_lossy(&r.stdout).lines() {
+                    let mut it = line.splitn(3, '\t');
+                    let (Some(a), Some(b), Some(c)) = (it.next(), it.next(), it.next()) else { continue };
+                    out.push((a.parse::<usize>().unwrap_or(usize::MAX), b.to_string(), c.to_string()));
+                }
+                Ok(out)
+            }));
+        }
+        hs.into_iter().map(|h| h.join().unwrap()).collect()
+    });
+    let mut json: Vec<BTreeMap<String, Value>> = vec![BTreeMap::new(); programs.len()];
+    for r in results {
+        for (i, label, text) in r? {
+            if i < json.len() {
+                let v: Value = serde_json::from_str(&text).map_err(|e| format!("oracle printed invalid JSON {text}: {e}"))?;
+                json[i].insert(label, v);
+            }
+        }
+    }
+    Ok(OracleOut { json, build_s: start.elapsed().as_secs_f64(), crates })
+}
